@@ -29,17 +29,20 @@ STRATS = ['knees', 'expected', 'best', 'worst']
 def cases(draw, tier):
     c = draw(S.curves(3, 40 if tier == 'quick' else 200, scales=False,
                       families=['mono_dec', 'convex', 'noise', 'plateau', 'quant', 'pwl_dyadic', 'trace', 'repo', 'steps'],
-                      big_n=120 if tier == 'quick' else 400))
+                      big_n=240 if tier == 'quick' else 600))
     pts = c['pts']
     n = len(pts)
-    k = draw(st.integers(1, max(1, (n - 1) // 2)))
+    k = draw(st.one_of(st.integers(1, max(1, (n - 1) // 2)), st.integers(1, max(1, n - 8))))
     knees = sorted(draw(st.lists(st.integers(0, n - 1), min_size=k, max_size=k, unique=True)))
     ne = draw(st.integers(1, max(1, min(6, n - len(knees)))))
     xr = pts[-1][0] - pts[0][0]
     expected = []
     for _ in range(ne):
-        mode = draw(st.sampled_from(['knee', 'knee', 'curve', 'perturbed', 'far', 'between']))
-        if mode == 'knee':
+        mode = draw(st.sampled_from(['knee', 'knee', 'curve', 'perturbed', 'far', 'between', 'late-knee', 'late-knee']))
+        if mode == 'late-knee':   # (duplicated) annotations next to the last knees
+            j = knees[-1 - draw(st.integers(0, min(2, len(knees) - 1)))]
+            expected.append(list(pts[j]))
+        elif mode == 'knee':
             j = draw(st.sampled_from(knees))
             expected.append(list(pts[j]))
         elif mode == 'curve':
@@ -124,7 +127,7 @@ def oracle(case, rec):
     t = float(case['t'])
     strat = getattr(ev.Strategy, case['strategy'])
     pf = p            # float view used by the reference computations
-    if case.get('int_points') and np.all(p == np.floor(p)) and float(np.max(np.abs(p))) < 2 ** 50:
+    if case.get('int_points') and np.all(p == np.floor(p)) and float(np.max(np.abs(p))) < 2 ** 30:
         p = p.astype(np.int64)      # an integer-typed curve is the same curve
         rec.tag('points:int64')
     rec.tag('family:' + case['family'], 'strategy:' + case['strategy'], 'perfect' if case['perfect'] else 'general')
